@@ -18,6 +18,7 @@ import ElfioVerif.Props.C13
 import ElfioVerif.Props.C08
 import ElfioVerif.Lemmas.Dynamic
 import ElfioVerif.Lemmas.TablesTie
+import ElfioVerif.Lemmas.SymTie
 namespace ElfioVerif
 open Gen
 namespace Inspect
@@ -660,7 +661,7 @@ theorem sym_num_total (t : SymTab) : ∃ n, t.symbolsNum = .ok n ∧
     section with any linked string section (st_name out of range, unterminated strings) -/
 theorem sym_get_total (t : SymTab) (h : SymReady t) (idx : BitVec 64) (str : Bytes) (a : Attrs) :
     ∃ r, t.getSymbol idx str a = .ok r := by
-  unfold SymTab.getSymbol
+  rw [SymTie.getSymbol_unfold]
   simp only [secData_of_settled h.sym]
   unfold SymTab.guardNum
   cases hd : t.sym.data with
